@@ -163,6 +163,8 @@ class RefServer(Peer):
 
     def wants_variant(self, dg, var):
         d = dg.data
+        if len(d) >= 4 and d[1] >= 64 and (d[0] >> 4) & 3 == rc.CON:
+            return var == "silent"      # a CON response from the node: ACKed by default, optionally ignored
         if len(d) < 4 or not (1 <= d[1] < 32):
             return False
         if (dg.src, (d[2] << 8) | d[3]) in self.seen:
@@ -179,6 +181,10 @@ class RefServer(Peer):
         mtype, code, mid, token, options, payload = msg
         if mtype in (rc.ACK, rc.RST):
             self.acks.append((src, mtype, mid))
+            return
+        if mtype == rc.CON and code >= 64:
+            if (self.variant or "") != "silent":
+                self.send(src, (rc.ACK, 0, mid, b"", [], b""))
             return
         if not (1 <= code < 32):
             return
